@@ -1105,9 +1105,13 @@ void generate(sim::Rng &rng, sim::Plan &p, bool thorough)
 {
   (void)thorough;
   p.cfg.set("type", static_cast<long>(rng.below(3)));
-  bool const big = rng.chance(1, 8);
+  // swarm: most runs use small counts; some 8 times, a few 64 times larger ones (growth policy and
+  // reallocation at sizes of several kilobytes)
+  unsigned const sc = static_cast<unsigned>(rng.below(16));
+  long const scale = sc == 0 ? 64 : (sc <= 2 ? 8 : 1);
+  bool const big = scale != 1;
   if (big)
-    p.cfg.set("scale", 8);
+    p.cfg.set("scale", scale);
   bool const faulty = rng.chance(1, 2);
   if (faulty)
     p.cfg.set("faulty", 1);
@@ -1191,7 +1195,7 @@ void generate(sim::Rng &rng, sim::Plan &p, bool thorough)
       if (n == "swap")
         op.set("free", static_cast<long>(rng.below(2)));
       if (n == "ctor_n" || n == "ctor_range" || n == "ctor_il" || n == "insertn" || n == "insertr" || n == "resize" || n == "reserve")
-        op.set("n", static_cast<long>(rng.below(big ? 400 : 40)));
+        op.set("n", static_cast<long>(rng.below(static_cast<std::uint64_t>(40 * scale))));
       if (n == "ctor_range" || n == "insertr")
         op.set("k", static_cast<long>(rng.below(4)));
       if (n == "ctor_n" || n == "ctor_range")
